@@ -90,6 +90,20 @@ macro_rules! cover {
 /// entry in the module's native `registry()`.
 #[macro_export]
 macro_rules! harnesses {
+    (@reg $reg:ident; $( $(#[$m:meta])* $name:ident => $body:path ;)*) => {
+        $(
+            #[cfg(kani)]
+            #[kani::proof]
+            $(#[$m])*
+            fn $name() {
+                $body(&mut $crate::nd::KaniNd)
+            }
+        )*
+        #[cfg(not(kani))]
+        pub fn $reg() -> Vec<(&'static str, fn(&mut $crate::nd::TapeNd))> {
+            vec![ $( (stringify!($name), { let f: fn(&mut $crate::nd::TapeNd) = $body; f }), )* ]
+        }
+    };
     ($( $(#[$m:meta])* $name:ident => $body:path ;)*) => {
         $(
             #[cfg(kani)]
